@@ -19,7 +19,7 @@ def bounds(tier):
 
 
 def slices(tier, rng):
-    return [Slice('items-ps%d' % ps, 't_items', 7, lambda a, ps=ps: [a[0] == ps] + [z3.ULE(a[i], 1) for i in range(1, 7)],
+    return [Slice('items-ps%d' % ps, 't_items', 8, lambda a, ps=ps: [a[0] == ps] + [z3.ULE(a[i], 1) for i in range(1, 7)] + [z3.ULE(a[7], 5), z3.Implies(z3.Or(a[1] != 0, a[3] != 0, a[4] != 0, a[6] != 0), a[7] == 0)],
                   opts={'must_reach': ['ok']}) for ps in (4, 8)]
 
 
@@ -42,6 +42,12 @@ def leaf_queries(I, a, leaf, py, sl):
     bad.append(z3.BoolVal(has_n) != (a[5] != 0))
     if has_n and (paths_of('n') != ['n::T'] or [r.name for r in Item(its['n::T']).regions] != ['c']): bad.append(z3.BoolVal(True))
     if any(p.startswith('n::') for p in paths_of('m')) or any(p.startswith('m::') for p in paths_of('n')): bad.append(z3.BoolVal(True))
+    # rust backend blocks: every one, complete, in source order; other backends' text is kept apart
+    WANT = {0: [], 1: [1], 2: [1, 2], 3: [1, 2], 4: [1], 5: [1, 2, 3]}
+    got = mods['m'][5] if 'm' in mods and len(mods['m']) > 5 else None
+    for code, idxs in WANT.items():
+        want = [['P%d' % i, 'E%d' % i] for i in idxs]
+        if got != want: bad.append(a[7] == code)
     return [Query('accepted-implies-no-collision-and-every-item-in-its-module', z3.Or(*bad))]
 
 
@@ -56,5 +62,6 @@ def describe(template, args):
     if a[3]: out.append('  pub type TVftable { pub z: *const u8 }')
     if a[4]: out.append('  #[size(4), align(4)] extern type T;')
     if len(a) > 6 and a[6]: out.append('  #[size(64), align(8)] extern type TVftable;   (T has a vftable block)')
+    if len(a) > 7 and a[7]: out.append('  backend blocks: ' + {1: 'rust', 2: 'rust, rust', 3: 'rust, cpp, rust', 4: 'cpp, rust', 5: 'rust, rust, cpp, rust'}.get(a[7], '?'))
     if a[5]: out.append('module n:\n  pub type T { pub c: *mut u8 }')
     return '\n'.join(out)
